@@ -2,6 +2,7 @@
   Kernel tie: `OrderBookParticipation.IsEligibleForNextRoundPreLiquidityReduction` = `Part.eligiblePre`.
 -/
 import Sge.Gen.Kernels
+import SgeProofs.Lemmas.KernelsTie
 import Sge.Core.Orderbook
 namespace Sge.KernelsTie
 open Sge Sge.Core Sge.Gen.Kernels
@@ -12,8 +13,7 @@ theorem krn_tie_EligiblePre (p : Part) :
     orderbook_OrderBookParticipation_IsEligibleForNextRoundPreLiquidityReduction p.crl p.crMaxLoss = p.eligiblePre := by
   first
     | rfl
-    | (unfold orderbook_OrderBookParticipation_IsEligibleForNextRoundPreLiquidityReduction Part.eligiblePre
-       simp only [decide_eq_decide, maxI, minI]; (repeat' split) <;> omega)
+    | (unfold orderbook_OrderBookParticipation_IsEligibleForNextRoundPreLiquidityReduction Part.eligiblePre; krn_close)
 
 example : orderbook_OrderBookParticipation_IsEligibleForNextRoundPreLiquidityReduction 10 10 = false ∧
     orderbook_OrderBookParticipation_IsEligibleForNextRoundPreLiquidityReduction 10 (-5) = true := by decide +kernel
